@@ -30,7 +30,9 @@ Known deviations of the unchanged tree (C31, genuine, reported to the lead -- si
       a Connection header with a null list element is refused with 400 although it contains the Upgrade token
       (RFC 2616 2.1 #rule / RFC 7230 7: recipients MUST ignore empty list elements) -- low severity.
 
-Mutation testing (FRAMEWORK rule 3), scratch worktrees /tmp/wswriter-m*, each run through `VERIF_REPO=... ./check`:
+Mutation testing (FRAMEWORK rule 3), scratch worktrees /tmp/wswriter-{m,n}* of HEAD e291a3d5, each run through
+`VERIF_REPO=... ./check Cxx --seed 1` (quick tier); the C31 mutations were applied on top of the two-line repair of the
+known deviations above so that they are not masked by them:
  C30 (all caught, exit 1):
   m1 messageWriter.Write large-write path flushFrame(false,p) -> flushFrame(true,p)   roundtrip-parser:* / wire:*
   m2 flushFrame: `w.compress = false` removed (RSV1 stays on continuations)           wire:rsv1-on-continuation
@@ -43,16 +45,14 @@ Mutation testing (FRAMEWORK rule 3), scratch worktrees /tmp/wswriter-m*, each ru
    fragment sizes, are -- correctly -- reported as drift, exit 2: the property still holds)
  C31 (all caught, exit 1):
   n1 computeAcceptKey/encodeAcceptKey hash GUID+key instead of key+GUID                handshake:accept-key
-  n2 tokenListContainsValue compares case-sensitively                                  handshake:reject-valid:connection=upgrade ...
+  n2 tokenListContainsValue compares case-sensitively                                  handshake:reject-valid:connection=upgrade, upgrade=WebSocket, ...
   n3 selectSubprotocol returns the server's first protocol when nothing matches        handshake:subprotocol-not-offered
   n4 compression negotiated whenever enabled (offer not checked)                       handshake:extension-not-offered
-  n5 validReceivedCloseCodes: 1005 -> true                                             closecode:accept-forbidden:1005
-  n6 WriteControl limit 125 -> 123 (close reason limit 123 -> 121)                     tclose:no-frame:len=122
+  n5 validReceivedCloseCodes: 1005 -> true                                             closecode:accept-forbidden:1005, closereg:*RecvCloseInvalid
+  n6 WriteControl limit 125 -> 123 (close reason limit 123 -> 121)                     tclose:no-frame:len=122, len=123
   n7 recordCloseCode: CompareAndSwap(0, v) -> Store(v)                                 closereg:*
-  n8 checkSameOrigin / checkSameHost: compare only the host prefix (HasPrefix)         handshake:accept-invalid:origin:*
+  n8 checkSameOrigin / checkSameHost: compare only the host prefix                     handshake:accept-invalid:origin:origin=other-port/default
 """
-import os
-
 from lib import vf
 
 
@@ -75,7 +75,7 @@ def c30(c):
         c.log('TLC exhaustive (history invariant): %d distinct states' % r2['distinct'])
     binp = c.go_build('wswriter')
     # 2. spec -> code: simulated scripts (every state checked against Roundtrip by TLC) replayed into a real Conn
-    runs = [('sim.cfg', 400)] if quick else [('sim.cfg', 3000), ('simbig.cfg', 3000)]
+    runs = [('sim.cfg', 400)] if quick else [('sim.cfg', 2500), ('simbig.cfg', 2500)]
     ops = 0
     for cfg, n in runs:
         s = c.tlc('WsWriter', 'WsWriterSim', cfg, simulate=n, depth=15, timeout=2400)
